@@ -710,18 +710,21 @@ def in_model(c):
 def shard_src(cases):
     body = ";\n ".join(case_lit(c) for c in cases)
     return HDR + ("Definition cases : list case := [\n %s].\nEval vm_compute in (bad_cases cases 0).\n"
-                  "Eval vm_compute in (bad_wf cases 0).\n" % body)
+                  "Eval vm_compute in (bad_wf cases 0).\nEval vm_compute in (bad_conv cases 0).\n"
+                  "Eval vm_compute in (n_conv cases).\n" % body)
 
 
 def parse_two_lists(out):
     """the two '= [..] : list nat' answers of a shard (model mismatches, not-well-formed inputs)"""
     ms = re.findall(r"=\s*\[(.*?)\]\s*:\s*list", out, re.S)
-    if len(ms) != 2:
+    if len(ms) != 3:
         return None
     res = []
     for body in ms:
         body = body.strip()
         res.append([int(re.sub(r"%\w+", "", x).strip().strip("()")) for x in body.split(";")] if body else [])
+    m = re.search(r"=\s*(\d+)\s*:\s*nat", out)
+    res.append(int(m.group(1)) if m else 0)
     return res
 
 
@@ -937,27 +940,27 @@ def finding_key(meta, c, f):
     kind = f["fail"]
     if kind.split(":")[0] in ("flag", "kwarg", "class", "arity") and f.get("class") and f["class"] not in ("?", ""):
         cls = f["class"][1:] if f["class"].startswith("C") else f["class"]
-        return {"class": cls, "fail": kind}, c.e, c.q
+        return {"class": cls, "fail": kind}, c.e, c.q, f
     e2, q2, f2 = shrink(meta, c, f)
     cls = root_class(e2)
     kind = f2["fail"]
     if kind.split(":")[0] in ("flag", "kwarg", "class", "arity") and f2.get("class") and f2["class"] not in ("?", ""):
-        return {"class": f2["class"][1:] if f2["class"].startswith("C") else f2["class"], "fail": kind}, e2, q2
+        return {"class": f2["class"][1:] if f2["class"].startswith("C") else f2["class"], "fail": kind}, e2, q2, f2
     if kind in ("dtype", "returned-dtype", "leaf-dtype"):
         nom = nominal_in(e2)
         if nom and cls not in ("Zero",):
             # an operator class without floating data and a hard-wired dtype sits in the tree: every dtype mismatch of the
             # enclosing operators is its consequence
-            return {"class": nom[0], "fail": "nominal-dtype"}, e2, q2
-    return {"class": cls, "op": family(q2), "fail": kind}, e2, q2
+            return {"class": nom[0], "fail": "nominal-dtype"}, e2, q2, f2
+    return {"class": cls, "op": family(q2), "fail": kind}, e2, q2, f2
 
 
 def report(ctx, meta, c, model_disagrees):
     f = primary(c.fails)
-    key, e2, q2 = finding_key(meta, c, f)
+    key, e2, q2, f2 = finding_key(meta, c, f)
     replay = {"kind": "property-failure", "case": c.spec(), "failures": c.fails[:6], "exception": c.exc,
               "shrunk": {"expr": e2, "query": list(q2)}, "model_disagrees": bool(model_disagrees),
-              "what": "%s on %s.%s (data %s, default %s)" % (f["fail"], describe(e2), family(q2), c.src, c.defdt)}
+              "what": "%s on %s.%s (data %s, default %s)" % (f2["fail"], describe(e2), family(q2), c.src, c.defdt)}
     return ctx.violation(replay, key=key), key
 
 
@@ -984,7 +987,7 @@ def correspondence(ctx, cases):
     """-> (indices of model/implementation disagreements, indices of not-well-formed terms, shard failures)"""
     mc = [i for i, c in enumerate(cases) if in_model(c)]
     shards = [("c14_%d" % (k // SH), shard_src([cases[i] for i in mc[k:k + SH]])) for k in range(0, len(mc), SH)]
-    mism, notwf, failed = [], [], []
+    mism, notwf, failed, badconv, nconv = [], [], [], [], 0
     for b in range(0, len(shards), 6):
         res = common.run_shards(ctx, shards[b:b + 6])
         for si in range(b, min(b + 6, len(shards))):
@@ -996,7 +999,9 @@ def correspondence(ctx, cases):
                 continue
             mism += [mc[si * SH + x] for x in two[0]]
             notwf += [mc[si * SH + x] for x in two[1]]
-    return mism, notwf, failed, len(mc)
+            badconv += [mc[si * SH + x] for x in two[2]]
+            nconv += two[3]
+    return mism, notwf, failed, len(mc), badconv, nconv
 
 
 def run(ctx):
@@ -1040,10 +1045,10 @@ def run(ctx):
             n = report_direct(ctx, meta, cs2, set(), limit=6)
         return n > 0
     ok = common.proof_stage(ctx, on_fail)
-    mism, notwf, failed, n_model = ([], [], [], 0)
+    mism, notwf, failed, n_model, badconv, nconv = ([], [], [], 0, [], 0)
     t1 = time.time()
     if ok:
-        mism, notwf, failed, n_model = correspondence(ctx, cases)
+        mism, notwf, failed, n_model, badconv, nconv = correspondence(ctx, cases)
         for name, out in failed:
             ctx.violation({"kind": "shard-failed", "shard": name, "out": out}, no_input=True)
     t_coq = time.time() - t1
@@ -1062,6 +1067,14 @@ def run(ctx):
         ctx.violation({"kind": "model-implementation-disagreement", "case": c.spec(), "exception": c.exc,
                        "input_term": lit(c.oin), "observed_term": (lit(c.obs) if isinstance(c.obs, tuple) else str(c.obs)),
                        "correspondence": "coq/C14/Check.v agree (Model.v vs the real classes)"}, no_input=True)
+    for i in badconv[:3]:
+        c = cases[i]
+        if c.fails:
+            continue            # a failing input: already reported through the direct predicates
+        ctx.violation({"kind": "specification-implementation-disagreement", "case": c.spec(), "input_term": lit(c.oin),
+                       "observed_term": (lit(c.obs) if isinstance(c.obs, tuple) else str(c.obs)),
+                       "what": "Conv.conv (the structural specification of the conversion) differs from what the library returned"},
+                      no_input=True)
     for i in notwf[:3]:
         c = cases[i]
         ctx.violation({"kind": "stored-operator-not-well-formed", "case": c.spec(), "input_term": lit(c.oin),
@@ -1097,7 +1110,7 @@ def run(ctx):
                 "operator whose data dtype differs from the default dtype or that nests at least one sub-operator; distinct by (class "
                 "tree, data dtype, default dtype, query family)",
         "cells": len(cells), "skipped_cells": skipped[:20], "n_skipped": len(skipped),
-        "model_mismatches": len(mism), "not_well_formed": len(notwf), "direct_property_failures": n_direct,
+        "model_mismatches": len(mism), "not_well_formed": len(notwf), "spec_compared": nconv, "spec_mismatches": len(badconv), "direct_property_failures": n_direct,
         "cases_with_failing_predicate": sum(1 for c in cases if c.fails),
         "queries": dist, "classes": cls_seen, "n_classes": len(cls_seen),
         "alloc_sites": meta["alloc"]["n_sites"], "alloc_files": meta["alloc"]["n_files"],
@@ -1164,5 +1177,7 @@ def replay(rp):
         ctx = common.Ctx(PROP, "quick", 0)
         res = common.run_shards(ctx, [("replay", shard_src([c]))])
         two = parse_two_lists(res["replay"][1]) if res["replay"][0] == 0 else None
+        if two and two[2]:
+            print("the structural specification Conv.conv DISAGREES with the implementation")
         print("model agrees with the implementation" if two and not two[0] else "model DISAGREES with the implementation", two)
     return 1 if c.fails else 0
